@@ -581,7 +581,7 @@ pub fn run(tier: &str) -> i32 {
         check_pair_all_configs(&text, dj, &cfgs, acc);
     }, Acc::merge);
     // ---- markup and quote characters in compared strings, custom messages and keys: every rendering stays well-formed
-    let specials = ["R&D", "a<b", "a>b", "\"q\"", "it's", "]]>", "&amp;", "&#x41;", "a&b<c>d\"e'f", "<!--", "é&ü"];
+    let specials = ["R&D", "a<b", "a>b", "\"q\"", "it's", "]]>", "&amp;", "&#x41;", "a&b<c>d\"e'f", "<!--", "é&ü", "a\u{1}b", "\u{8}x\u{c}", "x\u{1f}"];
     let mut sp: Vec<(String, String)> = vec![];
     for sp1 in specials {
         let doc = m(vec![("a", s(sp1)), ("b", l(vec![s(sp1), s("zz")])), (sp1, i(1))]);
